@@ -44,6 +44,7 @@ def run(ctx, res):
     from harness.gen import scenarios_a
     scenarios.with_restarts(ctx, cases, "c07")
     root = scenarios_a.assign_persist(cases, "c07", lambda i, c: c.pop("_fmt", None))
+    run_wire(ctx, res)
     try:
         recs = gwcheck.run_cases(ctx, res, cases, ["c07"], SCOPE, "c07")
     finally:
@@ -65,8 +66,34 @@ def run(ctx, res):
         res.sample({"id": r["case"]["id"], "cfg": r["case"]["cfg"], "ops": r["case"]["ops"][:10], "n_ops": len(r["case"]["ops"])})
 
 
+def run_wire(ctx, res):
+    """The release rule at the wire (real Transport.send and line protocol, link lost and made again around a wake-up):
+    harness/impl/wire.py.  Fixed family of variants (both flavours x 4 versions x held commands x loss point x cause)."""
+    from harness.impl import wire
+    n = reached = 0
+    for v in wire.VARIANTS:
+        try:
+            o = wire.run_variant(v)
+        except Exception as exc:          # the history itself could not be played
+            res.violate("wire/harness", f"wire variant {v}: {type(exc).__name__}: {exc}", {"kind": "wire", "variant": list(v)},
+                        kind="harness", found_input=False)
+            continue
+        n += 1
+        res.evaluations += 1
+        reached += bool(o["window"])
+        for key, what in wire.judge(o):
+            res.violate("wire/" + key, f"{v}: {what}", {"kind": "wire", "variant": list(v), "wire": o["wire"]})
+    res.count("wire-reconnect-variants", n)
+    res.extra["wire_reconnect"] = {"variants": n, "variants_where_a_later_wake_window_released_commands": reached}
+
+
 def replay(ctx, case):
     c0 = case["case"] if "case" in case else case
+    if c0.get("kind") == "wire":
+        from harness.impl import wire
+        o = wire.run_variant(tuple(c0["variant"]))
+        j = wire.judge(o)
+        return {"variant": c0["variant"], "wire": o["wire"], "judgement": j, "violates": bool(j)}
     if c0["cfg"].get("persist"):
         import shutil
         from harness.gen import scenarios_a
